@@ -125,7 +125,7 @@ def gen(rng, tier, i):
         sc.net["spawn_yield"] = rng.choice([0, 200, 500])
     tmo = 7200000
     # the (single) destination for reverse listeners, fresh destinations otherwise
-    v6_origin = rng.random() < 0.15 and ck in ("direct", "http", "socks5", "lb", "chain-http") and lk not in ("socks4", "socks4a", "reverse")
+    v6_origin = rng.random() < 0.15 and ck in ("direct", "http", "socks5", "chain-http") and lk not in ("socks4", "socks4a", "reverse")
     ntun = rng.choice([1, 1, 2, 3, 4, 6]) if not splice else rng.choice([1, 2])
     by_name = rng.random() < 0.3 and lk not in ("socks4",)
     oip = sc.origin_ip(v6_origin)
